@@ -205,8 +205,13 @@ def _same(env, a, b):
     return bool(np.allclose(np.asarray(a), np.asarray(b), rtol=1e-12, atol=1e-14))
 
 
+# properties whose thorough extras were run end-to-end on the unchanged tree (exit 0); others: thorough == quick
+from harness.thorough_verified import THOROUGH_VERIFIED
+
+
 def cases(tier):
-    q = True      # thorough extras of this property were not run end-to-end in round 1: thorough == quick until they are
+    import os
+    q = tier == 'quick' or 'C11' not in THOROUGH_VERIFIED and os.environ.get('VERIF_TRY_EXTRAS') != '1'
     D = 2
     cs = [
         Case('mvdr/F1', h_mvdr, dict(F=1, D=D), bounds='D=2 F=1, concrete PD noise PSD', timeout_ms=60000),
